@@ -11,7 +11,8 @@ import vlib
 PID = "C13"
 THEOREMS = ['C13_is_loading_iff_pending', 'C13_is_loading_chain', 'C13_report_depends_on_pending_set',
             'C13r_blocking_returns_when_finished', 'C13r_blocking_never', 'C13r_blocking_content', 'C13r_stream_once', 'C13r_stream_parent_first',
-            'C13r_stream_script_never_fails', 'C13r_stream_live', 'C13r_stream_equals_blocking']
+            'C13r_stream_script_never_fails', 'C13r_stream_live', 'C13r_stream_equals_blocking',
+            'C13s_boundary_loading_iff_resource_loading', 'C13s_boundary_loading_iff_latest_outstanding']
 
 
 def trees(rng, tier):
@@ -95,7 +96,7 @@ def main(argv):
                 "ALL orders in which the awaits complete when there are <= 5 of them (sampled to 40 per tree in quick); is_loading of every "
                 "boundary (both scope.is_loading() and use_is_loading()) after every step; non-trivial = a schedule during which some boundary "
                 "was loading only because of an enclosing boundary; distinct = distinct (tree, schedule)")
-    ok, msg = vlib.proof_step(chk, "C13", ["theories/Props/C13.vo"], THEOREMS)
+    ok, msg = vlib.proof_step(chk, "C13+C13s", ["theories/Props/C13.vo", "theories/Props/C13s.vo"], THEOREMS)
     broken = [] if ok else ["theorem: " + msg]
     okb, outb, binp = vlib.cargo_build("futures-driver")
     chk.obligation("cargo build futures-driver against /repo", okb, outb)
@@ -204,6 +205,26 @@ def main(argv):
             bad += [dict(f, what="(resource clause) " + f["what"]) for f in c15.oracle(c, [l.rsplit(" sus=", 1)[0] for l in body])]
             if bad:
                 rfail.append({"program": "resource-under-boundary", "schedule": sched, "failures": bad[:3], "output": body})
+    # ... and the bookkeeping model Async/ResourceSus.v (guards, registered scopes, task guards -> the boundary's counter) predicts every line
+    smism = []
+    try:
+        pre_s = "From Coq Require Import List ZArith String.\nFrom Syc Require Import Async.Resource Async.ResourceSus.\nImport ListNotations.\n"
+        exprs = ["run_resources_sus %s" % vlib.glist([vlib.glist([("RWrite (%d)%%Z" if st[0] == "write" else "RComplete %d") % st[1] for st in c]) for c in hist[i:i + 200]])
+                 for i in range(0, len(hist), 200)]
+        outs = vlib.coq_eval(PID + "s", pre_s, exprs, per_file=max(1, (len(exprs) + 15) // 16))
+        smodel = [b.split("\n") for o in outs for b in o.split("\n==\n")]
+        if len(smodel) == len(hist) == len(blocks):
+            for c, b, m in zip(hist, blocks, smodel):
+                if b.split("\n")[:-1] != m:
+                    smism.append({"program": "resource-under-boundary", "schedule": str(c), "impl": b.split("\n")[:-1], "model": m})
+            chk.traces += len(hist)
+        else:
+            smism.append({"program": "resource-under-boundary", "what": "block count"})
+    except RuntimeError as e:
+        smism.append({"program": "resource-under-boundary", "what": "model evaluation", "detail": str(e)[-500:]})
+    chk.obligation("correspondence: Async/ResourceSus.v = the real Resource under a real boundary on %d histories (value, is_loading, fetches started, boundary loading)" % len(hist),
+                   not smism, str(smism[:1]))
+    mism += smism
     chk.obligation("oracle: a boundary under which a Resource is read reports loading exactly while the resource's latest fetch is outstanding, through every "
                    "refetch (%d histories of dependency writes and completions)" % len(hist), not rfail, str(rfail[:1]))
     orfail += rfail
